@@ -544,6 +544,16 @@ impl NewCfg {
         )
     }
     pub fn tstate(&self) -> TState {
+        let ts = self.tstate_full();
+        let mut ts = ts;
+        if let Some(k) = CFG_TRUNC.with(|c| c.get()) {
+            // configuration space cut off after `k` bytes (oracle-only cases: the constructor fails at
+            // whichever field no longer fits, wherever in its sequence it reads that field)
+            ts.config.truncate(k);
+        }
+        ts
+    }
+    fn tstate_full(&self) -> TState {
         let mut ts = TState::new(self.d.device_type(), self.offered, 8, self.max);
         ts.legacy = self.legacy;
         // the status register does not read back what the driver wrote: the device has cleared
@@ -562,6 +572,11 @@ impl NewCfg {
         };
         ts
     }
+}
+
+thread_local! {
+    /// see `NewCfg::tstate`
+    pub static CFG_TRUNC: std::cell::Cell<Option<usize>> = const { std::cell::Cell::new(None) };
 }
 
 pub fn err_name(e: &Error) -> String {
